@@ -467,8 +467,13 @@ func (t *Tpl) writeNode(w io.Writer, node *node, ctx *Ctx) (err error) {
 	case typeLoopCount:
 		// Evaluate counter loops.
 		// See Ctx.cloop().
+		// Break depth pending for the parent loops must survive this loop.
+		brkD := ctx.brkD
 		ctx.brkD = 0
 		ctx.cloop(node, t, w)
+		if brkD > ctx.brkD {
+			ctx.brkD = brkD
+		}
 		if ctx.Err != nil {
 			err = ctx.Err
 			return
@@ -476,20 +481,24 @@ func (t *Tpl) writeNode(w io.Writer, node *node, ctx *Ctx) (err error) {
 	case typeLoopRange:
 		// Evaluate range loops.
 		// See Ctx.rloop().
+		// Break depth pending for the parent loops must survive this loop.
+		brkD := ctx.brkD
 		ctx.brkD = 0
 		ctx.rloop(node.loopSrc, node, t, w)
+		if brkD > ctx.brkD {
+			ctx.brkD = brkD
+		}
 		if ctx.Err != nil {
 			err = ctx.Err
 			return
 		}
 	case typeBreak:
-		// Break the loop.
-		ctx.brkD = node.loopBrkD
+		// Break the loop: stop the iteration immediately and end N loops (at least the current one).
+		ctx.setBrkD(node.loopBrkD)
 		err = ErrBreakLoop
 	case typeLBreak:
-		// Lazy break the loop.
-		ctx.brkD = node.loopBrkD
-		err = ErrLBreakLoop
+		// Lazy break the loop: let the iteration finish, then end N loops (at least the current one).
+		ctx.setBrkD(node.loopBrkD)
 	case typeContinue:
 		// Go to next iteration of loop.
 		err = ErrContLoop
@@ -623,6 +632,16 @@ func (t *Tpl) writeNode(w io.Writer, node *node, ctx *Ctx) (err error) {
 		err = ErrUnknownCtl
 	}
 	return
+}
+
+// Register the number of loops to end (one at least). Bigger depth registered before wins.
+func (ctx *Ctx) setBrkD(d int) {
+	if d < 1 {
+		d = 1
+	}
+	if d > ctx.brkD {
+		ctx.brkD = d
+	}
 }
 
 // Evaluate condition expressions.
